@@ -50,9 +50,9 @@ Print Assumptions C07_refs_closed_from_C05.
 (* ---- refuted clauses (witness trees have the shape of real parses, see known_findings.txt) *)
 (* F10: an feImage whose target element ends up without an id is written as xlink:href="#" *)
 Definition f10_root : group :=
-  G 0 None None []
-    [NGroup (G 0 None None
-       [FD 1 5 [PR 11 7 [] (Some (G 0 None None [] [NGroup (G 0 None None [] [NPath 0 PColor PNone])]))]]
+  G 0 false None None []
+    [NGroup (G 0 false None None
+       [FD 1 5 [PR 11 7 [] (Some (G 0 false None None [] [NGroup (G 0 false None None [] [NPath 0 PColor PNone])]))]]
        [NPath 0 PColor PNone])].
 Theorem C07_feimage_href_refuted :
   exists o root, let t := with_collections root in
@@ -70,7 +70,7 @@ Theorem C07_span_paint_refuted :
     w_preserve_text o = true /\ exists r, In r (refs_of (write o t)) /\ ~ In r (defs_of (write o t)).
 Proof.
   exists {| w_prefix := 0; w_preserve_text := true |},
-         (G 0 None None [] [NText 0 (G 0 None None [] [NPath 0 (PLin 8 2) PNone]) [CH None [PP (PLin 7 1) PNone]]]).
+         (G 0 false None None [] [NText 0 (G 0 false None None [] [NPath 0 (PLin 8 2) PNone]) [CH None [PP (PLin 7 1) PNone]]]).
   split; [reflexivity|]. exists (0, 1). split; vm_compute; [auto|intuition discriminate].
 Qed.
 Print Assumptions C07_span_paint_refuted.
@@ -108,11 +108,11 @@ Proof. exact no_overflow. Qed.
 Print Assumptions C07_write_num_no_overflow.
 
 (* ---- non-vacuity: the F08 witness shape (chains of three) is closed, with a prefix and without *)
-Definition leaf7 : group := G 0 None None [] [NPath 0 PColor PNone].
+Definition leaf7 : group := G 0 false None None [] [NPath 0 PColor PNone].
 Definition f08_root7 : group :=
-  G 0 None None []
-    [NGroup (G 0 (Some (CD 1 11 (Some (CD 2 12 (Some (CD 3 13 None leaf7)) leaf7)) leaf7)) None [] [NPath 21 (PLin 9 19) PNone]);
-     NGroup (G 0 None (Some (MD 4 14 (Some (MD 5 15 (Some (MD 6 16 None leaf7)) leaf7)) leaf7)) [] [NPath 22 PColor PNone])].
+  G 0 false None None []
+    [NGroup (G 0 false (Some (CD 1 11 (Some (CD 2 12 (Some (CD 3 13 None leaf7)) leaf7)) leaf7)) None [] [NPath 21 (PLin 9 19) PNone]);
+     NGroup (G 0 false None (Some (MD 4 14 (Some (MD 5 15 (Some (MD 6 16 None leaf7)) leaf7)) leaf7)) [] [NPath 22 PColor PNone])].
 Example C07_nv_chain :
   chk_refs_closed (write {| w_prefix := 77; w_preserve_text := false |} (with_collections f08_root7)) = true /\
   length (refs_of (write {| w_prefix := 77; w_preserve_text := false |} (with_collections f08_root7))) = 7%nat.
